@@ -536,3 +536,53 @@ pub fn leaves(ep: &EnergyPerformance) -> Vec<(String, F)> {
 thread_local! {
     pub static LEAVES: std::cell::RefCell<Option<Vec<(String, F)>>> = std::cell::RefCell::new(None);
 }
+
+// ------------------------------------------------------------------ shape catalogue (DESIGN.md 3.3)
+
+fn mix64(x: &mut u64) -> u64 {
+    *x = x.wrapping_add(0x9E3779B97F4A7C15);
+    let mut z = *x;
+    z = (z ^ (z >> 30)).wrapping_mul(0xBF58476D1CE4E5B9);
+    z = (z ^ (z >> 27)).wrapping_mul(0x94D049BB133111EB);
+    z ^ (z >> 31)
+}
+
+/// `count` pseudo-random multisets of 2-4 system blocks (seed-selected slice of the catalogue): the blocks are
+/// the ones of DESIGN.md 3.3; `allow` filters block kinds by name.
+pub fn catalogue(seed: u64, count: usize, allow: &[&str]) -> Vec<String> {
+    let blocks: &[(&str, &[&str])] = &[
+        ("EL", &["U:CAL:ELECTRICIDAD", "U:ACS:ELECTRICIDAD", "U:ILU:ELECTRICIDAD", "2/U:REF:ELECTRICIDAD"]),
+        ("NEPB", &["U:NEPB:ELECTRICIDAD", "U:NEPB:GASNATURAL", "U:NEPB:EAMBIENTE"]),
+        ("PV", &["P:EL_INSITU", "2/P:EL_INSITU", "P:EL_INSITU;3/P:EL_INSITU"]),
+        ("CHP", &["P:EL_COGEN;U:COGEN:GASNATURAL", "1/P:EL_COGEN;1/U:COGEN:BIOMASA", "P:EL_COGEN;U:COGEN:GASNATURAL;U:COGEN:BIOMASA"]),
+        ("HP", &["1/U:ACS:ELECTRICIDAD;1/U:ACS:EAMBIENTE", "2/U:CAL:EAMBIENTE;2/P:EAMBIENTE", "0/P:EAMBIENTE;3/U:CAL:EAMBIENTE", "U:ACS:EAMBIENTE;P:EAMBIENTE;U:NEPB:EAMBIENTE"]),
+        ("ST", &["U:ACS:TERMOSOLAR", "U:ACS:TERMOSOLAR;P:TERMOSOLAR", "-1/U:ACS:TERMOSOLAR;P:TERMOSOLAR"]),
+        ("FUEL", &["U:CAL:GASNATURAL", "U:ACS:BIOMASA", "U:CAL:RED1", "U:ACS:GASOLEO;U:CAL:GASOLEO"]),
+        ("AUX", &["4/U:CAL:GASNATURAL;4/X", "5/U:CAL:GASNATURAL;5/U:ACS:GASNATURAL;5/X;5/~O:CAL;5/~O:ACS", "6/U:REF:ELECTRICIDAD;6/U:CAL:ELECTRICIDAD;6/X;6/O:REF;6/~O:CAL"]),
+        ("DEM", &["D:ACS", "D:CAL;D:REF"]),
+    ];
+    let usable: Vec<&(&str, &[&str])> = blocks.iter().filter(|b| allow.is_empty() || allow.contains(&b.0)).collect();
+    let mut s = seed.wrapping_mul(0x2545F4914F6CDD1D) ^ 0x1234_5678;
+    let mut out = vec![];
+    let mut guard = 0;
+    while out.len() < count && guard < 1000 {
+        guard += 1;
+        let nb = 2 + (mix64(&mut s) % 3) as usize;
+        let mut parts: Vec<&str> = vec![];
+        let mut kinds: Vec<&str> = vec![];
+        for _ in 0..nb {
+            let b = usable[(mix64(&mut s) % usable.len() as u64) as usize];
+            if kinds.contains(&b.0) && b.0 != "AUX" && b.0 != "HP" {
+                continue;
+            }
+            kinds.push(b.0);
+            parts.push(b.1[(mix64(&mut s) % b.1.len() as u64) as usize]);
+        }
+        let shape = parts.join(";");
+        // a building needs at least one energy line
+        if shape.contains("U:") && shape.split(';').count() <= 8 && !out.contains(&shape) {
+            out.push(shape);
+        }
+    }
+    out
+}
